@@ -28,9 +28,9 @@ type respSpec struct {
 
 // per version: key -> response shape
 var versions = []map[string]respSpec{
-	{"n1/65": {ttls: []uint32{5}}, "n1/1": {ttls: []uint32{2, 5}}, "n1/28": {},
+	{"n1/65": {ttls: []uint32{5}}, "n1/1": {ttls: []uint32{2, 5}}, "n1/28": {ttls: []uint32{1000}},
 		"n2/65": {}, "n2/1": {ttls: []uint32{5, 1}, cname: true}, "n2/28": {ttls: []uint32{2}, cname: true}},
-	{"n1/65": {ttls: []uint32{0}}, "n1/1": {ttls: []uint32{5, 2}}, "n1/28": {},
+	{"n1/65": {ttls: []uint32{0}}, "n1/1": {ttls: []uint32{5, 2}}, "n1/28": {ttls: []uint32{1000, 400}},
 		"n2/65": {}, "n2/1": {ttls: []uint32{0, 5}, cname: true}, "n2/28": {ttls: []uint32{5}, cname: true}},
 	{"n1/65": {ttls: []uint32{1}}, "n1/1": {ttls: []uint32{0, 5}}, "n1/28": {},
 		"n2/65": {}, "n2/1": {ttls: []uint32{2, 2}, cname: true}, "n2/28": {ttls: []uint32{0}, cname: true}},
@@ -291,3 +291,29 @@ func HistWorker(tier string, shard, n int) {
 
 // ZoneV0 serves zone version 0 (used by the supplementary race pass).
 func ZoneV0(name string, t uint16) dohmem.Answer { return buildAnswer(name, t, 0) }
+
+// MultiZone adds, to zone version v, names whose HTTPS RRsets have several records: n3 = three service-mode records
+// that the server sends out of priority order (3,1,2); n4 = service-mode records with an alias-mode record between them
+// (a set RFC 9460 leaves to the client; whatever the resolver makes of it, it must make the same of it every time).
+func MultiZone(v int) func(name string, t uint16) dohmem.Answer {
+	return func(name string, t uint16) dohmem.Answer {
+		svc := func(prio uint16, target string) dnsref.RR {
+			var ps []dnsref.Param
+			if prio > 0 {
+				ps = []dnsref.Param{dnsref.ParamALPN("h3", "h2"), dnsref.ParamECH([]byte{0xec, byte(prio)})}
+			}
+			return dnsref.RR{Name: name, Type: 65, Class: 1, TTL: 2, Fields: dnsref.SVCB(prio, target, ps)}
+		}
+		switch {
+		case name == "n3.example" && t == 65:
+			return dohmem.Answer{Records: []dnsref.RR{svc(3, ""), svc(1, ""), svc(2, "")}}
+		case name == "n4.example" && t == 65:
+			return dohmem.Answer{Records: []dnsref.RR{svc(2, ""), svc(0, "elsewhere.example"), svc(1, "")}}
+		case (name == "n3.example" || name == "n4.example") && t == 1:
+			return dohmem.Answer{Records: []dnsref.RR{{Name: name, Type: 1, Class: 1, TTL: 2, Fields: []dnsref.Field{{Raw: []byte{10, 9, 9, 9}}}}}}
+		case name == "n3.example" || name == "n4.example" || name == "elsewhere.example":
+			return dohmem.Answer{}
+		}
+		return buildAnswer(name, t, v)
+	}
+}
